@@ -178,11 +178,11 @@ func runCheck(args []string) int {
 		if r.res.Script == nil {
 			continue
 		}
-		if spec.Filter == "locks" {
+		if spec.Filter != "" && r.res.Script != nil {
 			var keep []*Obligation
 			for _, o := range r.res.Script.obls {
-				if o.Kind == "lock" || strings.HasPrefix(o.Label, "locks") || (o.Cover && o.Label == "pre") ||
-					((o.Kind == "inv-init" || o.Kind == "inv-pres") && strings.Contains(o.Label, ":locks")) {
+				if (spec.Filter == "locks" && o.Kind == "lock") || strings.HasPrefix(o.Label, spec.Filter) || (o.Cover && o.Label == "pre") ||
+					((o.Kind == "inv-init" || o.Kind == "inv-pres") && strings.Contains(o.Label, ":"+spec.Filter)) {
 					keep = append(keep, o)
 				}
 			}
